@@ -319,6 +319,24 @@ func keysOf(m map[string]bool) []string {
 func (o *oracle) checkAfterEvent(e *event) {
 	cl := o.cl
 	c := cl.c
+	if e.hostile != nil {
+		n := cl.nodes[e.node]
+		if n.alive && !n.failed && e.fpBefore != "" {
+			// the statement of C16 is about halting and state, not about memory:
+			// a large transient allocation is counted as a probe only
+			if d := totalAlloc() - e.allocBefore; d > 64<<20 {
+				c.Probe("large-allocation(>64MiB)-by-one-message")
+			}
+			if e.hostile.mustNotChg {
+				if after := stateFinger(n); after != e.fpBefore {
+					c.Violate("state-changed-by-invalid-input", "C16/state/"+e.hostile.name, "node %d consensus state changed by an invalid message (%s):\n  before %s\n  after  %s", n.idx, e.hostile.name, e.fpBefore, after)
+				}
+			}
+		}
+		if n.failed {
+			n.failMsg = "after hostile message " + e.hostile.name + ": " + n.failMsg
+		}
+	}
 	for _, n := range cl.honest() {
 		if !n.alive {
 			continue
